@@ -247,7 +247,7 @@ pub fn random_history(rng: &mut impl Rng, len: usize) -> Vec<Value> {
             evs.push(json!({"e": "adv", "t": t}));
         } else {
             let k = KINDS[rng.gen_range(0..5)].0;
-            let c = if k == "rt" { rng.gen_range(0..=3000) } else { rng.gen_range(0..=5) };
+            let c = if k == "rt" { if rng.gen_range(0..5) == 0 { 0 } else { rng.gen_range(0..=3000) } } else { rng.gen_range(0..=5) };
             evs.push(json!({"e": "write", "t": t, "kind": k, "c": c}));
         }
     }
